@@ -510,6 +510,15 @@ class FuncGen(ExprGen):
 
 def free_function(rng: random.Random, name: str, hostile: bool = False) -> dict[str, Any]:
     """One free-form unit: {"src", "calls", "tags", "kind"}."""
+    from vlib import c05_gen
+    c05_gen.WORD_INTS[0] = True
+    try:
+        return _free_function(rng, name, hostile)
+    finally:
+        c05_gen.WORD_INTS[0] = False
+
+
+def _free_function(rng: random.Random, name: str, hostile: bool = False) -> dict[str, Any]:
     g = FuncGen(rng, hostile)
     nparams = rng.choice([1, 2, 2, 3, 3, 4])
     pool = PARAM_TYPES + (["Any"] * 40 + ["list[Any]"] * 8 + ["dict[Any, Any]"] * 4 if hostile else [])
